@@ -633,6 +633,8 @@ def run(ctx):
         "metals_range assumes n_e > 0 and positive recombination rates (positive denominators); n_e = 0 is excluded by the guard `if (ne > 0.)` of calculate_ionization_state (exercised by the cell ops); compute_cooling_and_heating_balance still evaluates the metals with n_e = 0 internally (NaN inside, masked by the h0 == 1 reset) — only the final cell state is checked",
         "independence of the previous cell state: proved in the model only for calculate_temperature w.r.t. the stored coolant fractions (cell_output_independent_of_previous_state); for calculate_ionization_state the model has no previous-state argument (trivial), so that every C++ branch assigns every fraction rests on the re-used-cell vs fresh-sentinel-cell oracle of the correspondence run",
         "whole-binary stream: 8^3 cells (16^3 in thorough), 2-3 iterations, 1e4 packets, 1-2 threads, monochromatic 20..100 eV source; oracle on the last Gadget snapshot only (all ionic fractions and the temperature switched on through DensityGridWriterFields); heating estimators are not in the snapshot; for the RHD run the temperature is only required to be finite (it follows the pressure after the hydro step)",
+        "continuity oracle sim:zero-abundance-discontinuity: abundance 0 vs 1e-9 of the same element, same seed, means over all cells of T and x_H must agree to rel 1e-3; measured on the fixed tree over 24 pairs (all six elements, 20..100 eV, 1e12/1e14 s^-1): worst 8.1e-6 (S), He 1.2e-9 -> margin > 100; the box is optically thin, so no packet history flips",
+        "the RHD driver does not normalise the He heating counter by the He abundance at all (unlike TaskBasedIonizationSimulation); not modelled, not alarmed on",
         "cmac_assert is compiled out (HAVE_ASSERTIONS undefined in the configured build) and not modelled",
         "line cooling, heating terms and the rate tables are inputs of the model (values produced by the real classes on every run), not modelled",
     ]
